@@ -4,6 +4,7 @@
 //!   BPUSHM <k> <ty1> <v1> .. <tyk> <vk>       k = 1: push_param, k = 2..5: push_param<k> with a DIFFERENT type per slot
 //!                                             (types from the MIX table below)
 //!   BOFF <n> | BRECV        re-make the body at buf_offset n / as the receive path delivers it (see eval)
+//!   BBEYOND <k> <r|x>       re-make the body with an offset at / beyond the end of its buffer (see eval)
 //!   BOLD <value>            push_old_param    BOLDS <k> <v1..vk>  push_old_params
 //!   PNEW                    parser over a snapshot of the body
 //!   PNEWX <hex>             parser over from_parts(<these bytes>, signature / descriptors / byte order of the body):
@@ -363,6 +364,27 @@ fn eval(line: &str) -> String {
             let n = a.num() as usize;
             BODY.with(|b| rehome(&mut b.borrow_mut(), n));
             format!("ok {} via=parts", body_state())
+        }
+        // BBEYOND <k> <r|x>: from_parts(the body's bytes, offset, same signature / descriptors) with an offset at or beyond the end
+        // of the buffer: x: offset = length + k; r = 0..7: the smallest offset >= length + k that is r modulo 8.
+        // What is left is a body without bytes (the model empties bbuf).
+        "BBEYOND" => {
+            let k = a.num() as usize;
+            let r = a.next();
+            BODY.with(|b| {
+                let mut m = b.borrow_mut();
+                let buf = m.get_buf().to_vec();
+                let mut n = buf.len() + k;
+                if let Ok(r) = r.parse::<usize>() {
+                    while n % 8 != r % 8 {
+                        n += 1;
+                    }
+                }
+                let fds = m.body.get_fds().to_vec();
+                let body = MarshalledMessageBody::from_parts(buf, n, fds, m.get_sig().to_owned(), m.body.byteorder());
+                m.body = body;
+            });
+            format!("ok {} via=beyond", body_state())
         }
         "BRECV" => {
             let wire = BODY.with(|b| receive(&mut b.borrow_mut()));
